@@ -78,6 +78,12 @@ def boundary_callers(F, fids, limit=8):
                 continue
             seen.add(f)
             fi = F.inst[f]
+            if fi.kind == "closure" and fi.local:
+                # a closure belongs to the function it is written in (it may be invoked from inside a std combinator)
+                pname = fi.name.split("::{closure#")[0]
+                ps = [p.id for p in F.inst if p.name == pname and p.body is not None]
+                if ps:
+                    nxt += ps; continue
             if not fi.local or keep_for(F, fi)(fi):
                 out.add(f); continue
             cs = [c for (c, k, bb) in callers.get(f, []) if k == "call"]
